@@ -1,5 +1,5 @@
 (* Canonical text of values and outcomes (mirrored by harness/codec.py: render) and the case runners the harness evaluates. *)
-From Symv Require Export Cats.LayoutInst Cats.Sort.
+From Symv Require Export Cats.LayoutInst Cats.Sort Cats.LayoutText.
 Open Scope string_scope.
 
 Fixpoint r_value (v : value) : string :=
@@ -39,6 +39,10 @@ Definition case_fac (t : string) (b : bytes) : string :=
   | Reject => "reject"
   | Crash k => "crash:" ++ k
   end.
+(* to_json() and __str__() *)
+Definition case_text (t : string) (v : value) : string :=
+  r_outcome r_json (json tm type_fuel t v) ++ "|" ++ r_outcome (fun x => x) (str tm type_fuel t v).
+
 Definition m_R : rec_ops := {| enc_t := m_enc; size_t := m_size; dec_t := m_dec; decf_t := m_decf; key_t := key ops_now tm type_fuel |}.
 
 (* sort() of one keyed array member: keys through the declared accessor, then the stable sort *)
